@@ -1,4 +1,4 @@
-(** Model of src/epd5in83b_v2/mod.rs — STUB, not yet transcribed. *)
+(** Model of src/epd5in83b_v2/mod.rs (5.83 inch B v2: black, white, red). *)
 From Coq Require Import List NArith Bool.
 From EPD Require Import Iface Ops Drv.Luts.
 Import ListNotations.
@@ -8,11 +8,132 @@ Open Scope m_scope.
 Module Epd5in83b_v2.
 Definition WIDTH : N := 648.
 Definition HEIGHT : N := 480.
+Definition IS_BUSY_LOW := true.
+Definition NUM_DISPLAY_BITS : N := WIDTH / 8 * HEIGHT.
 
-Definition init : M unit := ret tt.
+(** Color::get_byte_value / TriColor::get_byte_value *)
+Definition get_byte_value (c : N) : N := if c =? cWhite then 0xff else 0x00.
 
-Definition exec (k : N) (o : op) : option (M rval) := None.
+Definition wait_until_idle : M unit := wait_idle IS_BUSY_LOW.
+
+Definition send_resolution : M unit :=
+  let w := WIDTH in
+  let h := HEIGHT in
+  cmd 0x61 ;;
+  data [u8 (shr w 8)] ;;
+  data [u8 w] ;;
+  data [u8 (shr h 8)] ;;
+  data [u8 h].
+
+Definition init : M unit :=
+  reset 10000 10000 ;;
+  cmd_with_data 0x06 [0x17; 0x17; 0x1e; 0x17] ;;
+  cmd_with_data 0x01 [0x07; 0x07; 0x3F; 0x3F] ;;
+  cmd 0x04 ;;
+  delay_us 5000 ;;
+  wait_until_idle ;;
+  cmd_with_data 0x00 [0x0F] ;;
+  send_resolution ;;
+  cmd_with_data 0x15 [0x00] ;;
+  cmd_with_data 0x50 [0x11; 0x07] ;;
+  cmd_with_data 0x60 [0x22] ;;
+  wait_until_idle.
+
+(** the three-colour methods take the buffer as a data expression: they are also called from
+    [update_frame] / [update_color_frame] with one of the caller's buffers *)
+Definition update_achromatic_frame (black : dexp) : M unit :=
+  wait_until_idle ;;
+  cmd_with_data_e 0x10 black.
+
+Definition update_chromatic_frame (chromatic : dexp) : M unit :=
+  wait_until_idle ;;
+  cmd_with_data_e 0x13 chromatic.
+
+Definition update_color_frame (black chromatic : dexp) : M unit :=
+  update_achromatic_frame black ;;
+  update_chromatic_frame chromatic.
+
+Definition sleep : M unit :=
+  wait_until_idle ;;
+  cmd 0x02 ;;
+  wait_until_idle ;;
+  cmd_with_data 0x07 [0xA5].
+
+Definition update_frame (k len : N) : M unit :=
+  wait_until_idle ;;
+  update_achromatic_frame (DArg k 0 0 len) ;;
+  s <- get ;;
+  let color := get_byte_value (bg s) in
+  cmd 0x13 ;;
+  data_x_times color NUM_DISPLAY_BITS.
+
+Definition update_partial_frame (k len x y width height : N) : M unit :=
+  wait_until_idle ;;
+  (* if buffer.len() as u32 != width / 8 * height { }  -- empty body, but the product is checked *)
+  _ <- mul32 (width / 8) height ;;
+  let hrst_upper := shr (u8 (x / 8)) 6 in
+  let hrst_lower := u8 (shl (x / 8) 3) in
+  xw <- add32 x width ;;
+  let hred_upper := shr (u8 (xw / 8)) 6 in
+  let hred_lower := band (u8 (shl (xw / 8) 3)) 7 in
+  let vrst_upper := u8 (shr y 8) in
+  let vrst_lower := u8 y in
+  yh <- add32 y height ;;
+  let vred_upper := u8 (shr yh 8) in
+  let vred_lower := u8 yh in
+  let pt_scan := 0x01 in
+  cmd 0x91 ;;
+  cmd 0x90 ;;
+  data [hrst_upper; hrst_lower; hred_upper; hred_lower; vrst_upper; vrst_lower; vred_upper;
+        vred_lower; pt_scan] ;;
+  cmd 0x10 ;;
+  data_e (DArg k 0 0 len) ;;
+  let color := get_byte_value cBlack in
+  cmd 0x13 ;;
+  wh <- mul32 width height ;;
+  data_x_times color (wh / 8) ;;
+  cmd 0x12 ;;
+  wait_until_idle ;;
+  cmd 0x92.
+
+Definition display_frame : M unit :=
+  cmd 0x12 ;;
+  wait_until_idle.
+
+Definition update_and_display_frame (k len : N) : M unit :=
+  update_frame k len ;;
+  display_frame.
+
+Definition clear_frame : M unit :=
+  wait_until_idle ;;
+  cmd 0x10 ;;
+  data_x_times 0xFF NUM_DISPLAY_BITS ;;
+  cmd 0x13 ;;
+  data_x_times 0x00 NUM_DISPLAY_BITS.
+
+Definition set_lut (r : option N) : M unit := panic.
+
+Definition exec (k : N) (o : op) : option (M rval) :=
+  match o with
+  | OSleep => unit_ sleep
+  | OWakeUp => unit_ init
+  | OSetBg c => unit_ (modify (set_bg c))
+  | OGetBg => Some (s <- get ;; ret (RColor (bg s)))
+  | OWidth => Some (ret (RNum WIDTH))
+  | OHeight => Some (ret (RNum HEIGHT))
+  | OUpdateFrame len => unit_ (update_frame k len)
+  | OUpdatePartial len x y w h => unit_ (update_partial_frame k len x y w h)
+  | ODisplay => unit_ display_frame
+  | OUpdateAndDisplay len => unit_ (update_and_display_frame k len)
+  | OClear => unit_ clear_frame
+  | OSetLut r => unit_ (set_lut r)
+  | OWaitIdle => unit_ wait_until_idle
+  | OUpdateColor l1 l2 => unit_ (update_color_frame (DArg k 0 0 l1) (DArg k 1 0 l2))
+  | OUpdateAchromatic len => unit_ (update_achromatic_frame (DArg k 0 0 len))
+  | OUpdateChromatic len => unit_ (update_chromatic_frame (DArg k 0 0 len))
+  | _ => None
+  end.
 
 Definition drv (ft : feat) : driver :=
-  mkDriver WIDTH HEIGHT true d0 init exec.
+  mkDriver WIDTH HEIGHT true (mkD cWhite 0 false false 0 None) init exec.
 End Epd5in83b_v2.
